@@ -195,6 +195,10 @@ def gen_arrays(ctx):
 def check(ctx):
     core.check_properties_file(ctx, "Properties/C17.v", THEOREMS, core.AX_REALS)
     run_slices(ctx)
+    # the configuration step (TowerConfig.compute_local_xy, BLDFMConfig.__post_init__, the parser tables) is anchored in
+    # config_parser.py: its translator and bridge lemmas (built for C13) are obligations of this property too
+    import py2coq_interface
+    py2coq_interface.bridge(ctx, only=("GenConfigParser.v",))
     cp, geo = _impl()
     goals = []
     info = {}
